@@ -161,3 +161,28 @@ Proof. vm_compute. reflexivity. Qed.
 Example C18_ex_tmp : wp_released_tmp true true [1; 2; 3] = [0; 0; 0] /\ wp_released_tmp true false [1; 2; 3] = [0; 0; 0] /\
   wp_released_tmp false true [1; 2; 3] = [1; 2; 3].
 Proof. vm_compute. repeat split; reflexivity. Qed.
+
+(* ---------- interrupted nonce rotation (allocation failure inside the re-encryption loop) ---------- *)
+From HV Require Import Model_Oom Proofs_SecretInterrupted.
+
+(* fault sequences: the stored representation after a nonce rotation interrupted at any block boundary is still plaintext XOR keystream *)
+Theorem C18_at_rest_interrupted : forall pk n1 n2 p j, pk_ok pk -> length n1 = 12%nat -> length n2 = 12%nat -> plain_okb p = true ->
+  (j * 32 <= length p)%nat ->
+  let s := ss_rotate_partial pk n2 j (ss_set pk n1 p) in
+  ss_ct s = xor_bytes p (firstn (j * 32) (KS pk n2 (length p)) ++ skipn (j * 32) (KS pk n1 (length p))) /\
+  ss_nonce s = n1 /\ ss_tag s = ss_tag (ss_set pk n1 p) /\ length (ss_ct s) = length p.
+Proof. exact at_rest_interrupted. Qed.
+Print Assumptions C18_at_rest_interrupted.
+
+(* 70 bytes, interrupted after the first of three blocks: hypotheses hold; model = plaintext XOR mixed keystream; the first block is
+   the one a completed rotation stores, the rest is the one set stored; the object is neither of the two, nor the plaintext *)
+Example C18_ex_at_rest_interrupted :
+  let p := ex_msg 70 in let n1 := ex_nonce 9 in let n2 := ex_nonce 10 in
+  let s1 := ss_set ex_pk n1 p in let s2 := ss_set ex_pk n2 p in
+  let s := ss_rotate_partial ex_pk n2 1 s1 in
+  (pk_ok ex_pk /\ length n1 = 12%nat /\ length n2 = 12%nat /\ plain_okb p = true /\ (1 * 32 <= length p)%nat) /\
+  ss_ct s = xor_bytes p (firstn (1 * 32) (KS ex_pk n2 (length p)) ++ skipn (1 * 32) (KS ex_pk n1 (length p))) /\
+  ss_nonce s = n1 /\ ss_tag s = ss_tag s1 /\ length (ss_ct s) = 70%nat /\
+  firstn 32 (ss_ct s) = firstn 32 (ss_ct s2) /\ skipn 32 (ss_ct s) = skipn 32 (ss_ct s1) /\
+  nth 0 (ss_ct s) 0 <> nth 0 (ss_ct s1) 0 /\ nth 32 (ss_ct s) 0 <> nth 32 (ss_ct s2) 0 /\ nth 0 (ss_ct s) 0 <> nth 0 p 0.
+Proof. vm_compute. split; [repeat split; try reflexivity; lia|repeat split; try reflexivity; discriminate]. Qed.
